@@ -247,58 +247,100 @@ class StateSpace(object):
 
     # -- discovery ---------------------------------------------------------------------
     def discover(self):
-        """Walk the modules.  ``self._plain`` remembers (by identity) the code objects that were seen to carry no
-        state (functions without mutable defaults, imported modules, builtins): while a name is still bound to that
-        very object only its ``__dict__`` has to be looked at again."""
+        """-> {slot: live object}.  A module is fully scanned once; the scan leaves a *recipe* (names of the data
+        attributes, the function and class objects, the sizes of the namespaces).  While the namespaces keep their
+        size and every function / class name is still bound to the same object the recipe is replayed (fetch the
+        data attributes by name, look at each function's ``__dict__``); anything else triggers a new full scan, so
+        an attribute that appears later still becomes part of the state."""
         out = {}
-        allplain = self.__dict__.setdefault("_plain", {})
-        FT = types.FunctionType
+        recipes = self.__dict__.setdefault("_recipes", {})
         for mn, m in zip(self.module_names, self.mods):
-            plain = allplain.get(mn)
-            if plain is None:
-                plain = allplain[mn] = {}
-            for name, v in list(vars(m).items()):
-                if plain.get(name, _MISSING) is v:
-                    if type(v) is FT and v.__dict__:
-                        out[("fnattr", mn, v.__qualname__)] = v.__dict__
+            r = recipes.get(mn)
+            if r is not None:
+                part = {}
+                if self._replay(mn, m, r, part):
+                    out.update(part)
                     continue
-                if name in _SKIP_NAMES:
-                    continue
-                if hasattr(v, "cache_clear") and hasattr(v, "cache_info"):
-                    out[("lru", mn, name)] = v
-                    continue
-                if isinstance(v, FT) and v.__module__ == mn:
-                    if not self._defaults(out, mn, v):
-                        plain[name] = v
+            recipes[mn] = self._scan_module(mn, m, out)
+        return out
+
+    @staticmethod
+    def _replay(mn, m, r, out):
+        d = vars(m)
+        if len(d) != r["len"]:
+            return False
+        for name in r["data"]:
+            v = d.get(name, _MISSING)
+            if v is _MISSING or _is_code(v):
+                return False
+            out[("mod", mn, name)] = v
+        for name, f in r["funcs"]:
+            if d.get(name, _MISSING) is not f:
+                return False
+            if f.__dict__:
+                out[("fnattr", mn, f.__qualname__)] = f.__dict__
+        for name in r["code"]:
+            if name not in d:
+                return False
+        for f in r["defs"]:
+            out[("def", mn, f.__qualname__)] = f.__defaults__
+        for name, cls, n, attrs in r["classes"]:
+            cd = vars(cls)
+            if d.get(name, _MISSING) is not cls or len(cd) != n:
+                return False
+            for an in attrs:
+                av = cd.get(an, _MISSING)
+                if av is _MISSING or _is_code(av):
+                    return False
+                out[("cls", mn, cls.__qualname__, an)] = av
+        for name in r["lru"]:
+            v = d.get(name, _MISSING)
+            if v is _MISSING or not hasattr(v, "cache_info"):
+                return False
+            out[("lru", mn, name)] = v
+        return True
+
+    def _scan_module(self, mn, m, out):
+        FT = types.FunctionType
+        rec = {"len": len(vars(m)), "data": [], "funcs": [], "code": [], "defs": [], "classes": [], "lru": []}
+        for name, v in list(vars(m).items()):
+            if name in _SKIP_NAMES:
+                rec["code"].append(name)
+                continue
+            if hasattr(v, "cache_clear") and hasattr(v, "cache_info"):
+                out[("lru", mn, name)] = v
+                rec["lru"].append(name)
+                continue
+            if isinstance(v, FT):
+                rec["funcs"].append((name, v))
+                if v.__module__ == mn:
+                    if self._defaults(out, mn, v):
+                        rec["defs"].append(v)
                     if vars(v):
                         out[("fnattr", mn, v.__qualname__)] = vars(v)
-                    continue
-                if isinstance(v, type) and v.__module__ == mn:
-                    cplain = allplain.get((mn, name))
-                    if cplain is None:
-                        cplain = allplain[(mn, name)] = {}
-                    for an, av in list(vars(v).items()):
-                        if cplain.get(an, _MISSING) is av:
-                            continue
-                        if an.startswith("__") and an.endswith("__"):
-                            if not isinstance(av, (list, dict, set)):
-                                cplain[an] = av
-                            continue
-                        f = av.__func__ if isinstance(av, (staticmethod, classmethod)) else av
-                        if isinstance(f, FT):
-                            if not self._defaults(out, mn, f):
-                                cplain[an] = av
-                            continue
-                        if _is_code(av):
-                            cplain[an] = av
-                            continue
-                        out[("cls", mn, v.__qualname__, an)] = av
-                    continue
-                if _is_code(v):
-                    plain[name] = v
-                    continue
-                out[("mod", mn, name)] = v
-        return out
+                continue
+            if isinstance(v, type) and v.__module__ == mn:
+                attrs = []
+                for an, av in list(vars(v).items()):
+                    if an.startswith("__") and an.endswith("__"):
+                        continue
+                    f = av.__func__ if isinstance(av, (staticmethod, classmethod)) else av
+                    if isinstance(f, FT):
+                        if self._defaults(out, mn, f):
+                            rec["defs"].append(f)
+                        continue
+                    if _is_code(av):
+                        continue
+                    out[("cls", mn, v.__qualname__, an)] = av
+                    attrs.append(an)
+                rec["classes"].append((name, v, len(vars(v)), attrs))
+                continue
+            if _is_code(v):
+                rec["code"].append(name)
+                continue
+            out[("mod", mn, name)] = v
+            rec["data"].append(name)
+        return rec
 
     @staticmethod
     def _defaults(out, mn, f):
